@@ -154,4 +154,33 @@ example : image sample = .map [
 example : EncDomain (.map [("-a".toList, .list [])]) = false := by decide
 example : encTree ec "k".toList (.map [("-a".toList, .list [])]) = .error .other := rfl
 
+/-! ### `AnyXml` (a list at the top: single-entry-map members unwrapped, others under the
+  element tag) -/
+
+/-- the tree `AnyXml(v, rt, et)` builds decodes to `{rt: anyImage v et}`: for a list, every
+    member contributes its (normalised) image under its own tag (single-entry map with an
+    element key) or under `et`, and repeated tags are grouped in list order by the decoder's
+    grouping; for anything else `anyImage v et = image v.norm` -/
+theorem C03_anyXml_preserves (S : Strconv) (v : Val) (rt et : Str) (ns : List Node)
+    (hwf : v.wf = true) (h : anyTree ec v rt et = .ok ns) :
+    siblingsValue dc S ns = .map [(rt, anyImage v et)] :=
+  siblingsValue_anyTree S v rt et ns hwf h
+
+/-- the `(tag, value)` sequence of a top-level list, member by member -/
+theorem C03_anyPairs_cons_unwrapped (et tag : Str) (val : Val) (rest : List Val)
+    (h : (decide (tag = ec.textK) || isAttrK ec tag) = false) :
+    anyPairs et (.map [(tag, val)] :: rest)
+      = (imageSibs val.norm).map (tag, ·) ++ anyPairs et rest := by
+  simp only [anyPairs, h, Bool.false_eq_true, if_false]
+
+example :
+    let v := Val.list [.map [("a".toList, .num "i:1".toList)], .str "s".toList,
+                       .map [("a".toList, .null)], .list [.bool true, .bool false]]
+    anyXml ec v "doc".toList "element".toList = .ok
+      "<doc><a>1</a><element>s</element><a/><element>true</element><element>false</element></doc>".toList
+    ∧ anyImage v "element".toList = .map [
+        ("a".toList, .list [.str "1".toList, .str []]),
+        ("element".toList, .list [.str "s".toList, .str "true".toList, .str "false".toList])] :=
+  ⟨rfl, by decide⟩
+
 end Mxj.C03
